@@ -346,6 +346,33 @@ Definition verify_free (n : N) (old : list sroot) (idxs : list N) (oldroot newro
   bool_decide (oldroot = CR old) && (len old =? n) && forallb (fun i => i <? n) idxs
   && bool_decide (newroot = CR (free_apply old idxs)).
 
+(** *** What core's verifiers really are: only total and sound on a legal request.
+
+    [verify_roots] and [verify_free] above are the *facts* a proof establishes. core's
+    functions compute them only inside their contract; outside it they panic or answer
+    without looking at the data. The client functions below call the core versions, and
+    it is the client's own request validation (RPCSectorRoots: req.Validate, rpc.go:1026
+    and the root count, 1034; RPCFreeSectors: the normalisation and the range check of
+    fix 00e2f00, rpc.go:605) that keeps every call inside the contract
+    (RenterProofs.v: [roots_verifier_called_inside_its_contract],
+    [free_verifier_called_inside_its_contract]). *)
+Inductive vres := VTrue | VFalse | VOutside.   (* VOutside: panic ("illegal proof range", index out of range) *)
+Definition vres_ok (v : vres) : bool := match v with VTrue => true | _ => false end.
+
+(** rhp2.VerifySectorRangeProof (core rhp/v2/merkle.go:438-468) *)
+Definition core_verify_roots (pre post roots : list sroot) (n start end_ : N) (root : croot) : vres :=
+  if n =? 0 then                                            (* 439: numRoots == 0: len(proof) == 0, *)
+    (if (len pre =? 0) && (len post =? 0) then VTrue else VFalse)   (* the roots are not looked at *)
+  else if negb (len roots =? end_ - start) then VOutside    (* 441 panic: number of roots does not match range *)
+  else if (n <? end_) || (end_ <=? start) then VOutside     (* 443 panic: illegal proof range *)
+  else if verify_roots pre post roots n start end_ root then VTrue else VFalse.
+
+(** rhp2.VerifyDiffProof through VerifyFreeSectorsProof: indexes slices by the freed
+    indices and by numSectors - i - 1 *)
+Definition core_verify_free (n : N) (old : list sroot) (idxs : list N) (oldroot newroot : croot) : vres :=
+  if (n <? len idxs) || negb (forallb (fun i => i <? n) idxs) then VOutside
+  else if verify_free n old idxs oldroot newroot then VTrue else VFalse.
+
 (** *** RPCReadSector *)
 Record read_params := mk_read_params {
   rp_auth : bool; rp_egress : N; rp_root : sroot; rp_offset : N; rp_length : N }.
@@ -420,7 +447,7 @@ Definition client_roots (t : key) (c : contract) (sp : signed_prices) (offset le
             | Ok (v', u) => Ok (signed_result c v' (SigX 0) u, []) | Err => Err end
   | Some r =>
     match roots_decide (c_view c) p auth offset length true (len (or_roots r))
-            (verify_roots (or_pre r) (or_post r) (or_roots r) (num_sectors_up c) offset (offset + length) (v_root (c_view c)))
+            (vres_ok (core_verify_roots (or_pre r) (or_post r) (or_roots r) (num_sectors_up c) offset (offset + length) (v_root (c_view c))))
             (fun v' => host_signed c v' (or_sig r)) with
     | Ok (v', u) => Ok (signed_result c v' (or_sig r) u, or_roots r)
     | Err => Err
@@ -461,7 +488,7 @@ Definition client_free (t : key) (c : contract) (p : prices) (idxs : list N) (r1
   | Some r =>
     let hs := default (SigX 0) r3 in
     match free_decide (c_view c) p norm true (fr_newroot r)
-            (verify_free (v_filesize (c_view c) / sector_size) (fr_old r) norm (v_root (c_view c)) (fr_newroot r))
+            (vres_ok (core_verify_free (v_filesize (c_view c) / sector_size) (fr_old r) norm (v_root (c_view c)) (fr_newroot r)))
             (bool_decide (is_Some r3)) (fun v' => host_signed c v' hs) with
     | Ok (v', u) => Ok (signed_result c v' hs u)
     | Err => Err
